@@ -430,15 +430,15 @@ func c11(r *engine.Run) {
 		samples = append(samples, "bf=10 T=10 out hours 9 size 317 limit 1024 precision 3 coins 1000")
 	}
 	r.Finish(engine.Coverage{
-		"evaluations":         evals + hardEvals + friendEvals,
-		"soft_evaluations":    evals,
-		"hard_cross_checks":   hardEvals,
-		"friend_evaluations":  friendEvals,
-		"distinct_nontrivial": nontrivial,
+		"evaluations":          evals + hardEvals + friendEvals,
+		"soft_evaluations":     evals,
+		"hard_cross_checks":    hardEvals,
+		"friend_evaluations":   friendEvals,
+		"distinct_nontrivial":  nontrivial,
 		"accepted_on_boundary": boundary,
-		"rule":                "parameter tuples (pairwise distinct by construction: coinciding hour totals and output-hour choices are removed before evaluation) on which the reference rejects (>= 1 soft rule violated) or accepts exactly on a boundary (fee == required fee, size == limit)",
-		"exhaustive":          true,
-		"outcome_histogram":   hist,
+		"rule":                 "parameter tuples (pairwise distinct by construction: coinciding hour totals and output-hour choices are removed before evaluation) on which the reference rejects (>= 1 soft rule violated) or accepts exactly on a boundary (fee == required fee, size == limit)",
+		"exhaustive":           true,
+		"outcome_histogram":    hist,
 		"alphabet": map[string]interface{}{"burn_factors": len(bfs), "hour_totals": 12, "time_relations": len(times), "shape_limit_pairs": r.Pick(8, 9), "output_hour_choices": 8,
 			"owners": 3, "precision_amount_pairs": len(precCoins), "positions": r.Pick(1, 2)},
 		"samples": samples,
